@@ -34,3 +34,12 @@ def scripted(x: int) -> int:
     if step == "k":
         raise Other("boom", i)
     return x * 10 + i
+
+
+WF_TASK = [None]
+
+
+def wf_randoms(n: int) -> list:
+    """a workflow body that asks for n deterministic random numbers"""
+    task = WF_TASK[0]
+    return [task.wf.random() for _ in range(n)]
